@@ -1,3 +1,5 @@
+#[cfg(simple_dns_verif)]
+use simrt::shim_tokio as tokio;
 use simple_dns::{rdata::RData, Name, Packet, Question, ResourceRecord, CLASS, TYPE};
 use tokio::{
     net::UdpSocket,
@@ -404,5 +406,13 @@ async fn add_response_to_resources(
         for resource in resources {
             owned_resources.add_cached_resource(resource);
         }
+    }
+}
+
+#[cfg(simple_dns_verif)]
+impl ServiceDiscovery {
+    #[allow(missing_docs)]
+    pub fn verif_store(&self) -> Arc<RwLock<ResourceRecordManager<'static>>> {
+        self.resource_manager.clone()
     }
 }
